@@ -1,0 +1,13 @@
+//go:build verif
+
+package dir
+
+// VerifHook, when set by a verification harness, is called between the
+// filesystem steps of Write. It is only compiled with the "verif" build tag.
+var VerifHook func(point string, arg string)
+
+func verifPoint(point, arg string) {
+	if h := VerifHook; h != nil {
+		h(point, arg)
+	}
+}
